@@ -19,7 +19,7 @@ META = {
     "rule": "states = all joint genotype assignments of a pedigree (product of all unordered genotypes of every member); "
     "transitions = (state, target individual, slot order, slot, allele) entries of the Gibbs/MH vectors and (state, parental pair, "
     "slot_p, slot_q, decision) executions of the exchange step; non-trivial = pedigree with at least one known parent",
-    "bound": {"quick": "17 pedigree shapes (founders, duos, trio, lambda, selfing x2, half-sibs, three generations, mixed ploidy, tau (1,2),(2,1),(1,3), "
+    "bound": {"quick": "20 pedigree shapes (founders, duos, trio, lambda, selfing x2, half-sibs, three generations, mixed ploidy, tau (1,2),(2,1),(1,3), "
                        "clonal (2,0),(0,2), unbalanced duo); 2-3 haplotypes; edge-specific error rates (seed-rotated)",
               "thorough": "adds 3 haplotypes on 5-member shapes, 4 haplotypes on diploid trios, second read profile"},
     "assumptions": ["reference joint = prod_i likelihood_i x brute-force inheritance pmf_i (vmc/refmodel)",
